@@ -932,6 +932,10 @@ pub(crate) fn eval<
         // Sponge chain starts (next row new_start, not Merkle): capacity is never witness-fed.
         // The first capacity element starts at the length tag (fresh capacity 0 `+= cap_tag`); the
         // rest stay zero.
+        // Deliberately not `when_transition()`: on the last row `next` wraps to row 0 (main and
+        // preprocessed alike), so row 0's capacity is pinned too, with no `is_first_row` factor
+        // (which would make this degree 4). A non-`new_start` row 0 needs nothing: the flags are
+        // circuit-fixed (preprocessed) and the executor rejects a chained op with no predecessor.
         for slot in RATE_EXT..WIDTH_EXT {
             for d in 0..D {
                 let tag = if slot == RATE_EXT && d == 0 {
@@ -940,7 +944,6 @@ pub(crate) fn eval<
                     AB::Expr::ZERO
                 };
                 builder
-                    .when_transition()
                     .when(next_new_start)
                     .when(not_merkle.clone())
                     .assert_zero(next_in[slot * D + d] - tag);
